@@ -231,7 +231,7 @@ func init() {
 		Build: func(c *Ctx) []*an.Oblig {
 			cooldownProtocol(c)
 			cleanerAlwaysConsulted(c)
-			cleanupLogic(c) // what a pass removes, and that a pass which reports a change has made progress
+			cleanupLogic(c)       // what a pass removes, and that a pass which reports a change has made progress
 			fixedBufferCleaner(c) // the forced trim that bounds a quiescent buffer by max
 			out := c.sel(func(o *an.Oblig) bool {
 				if isUndecided(o) || o.Rule == "ANCHOR" {
